@@ -1,7 +1,9 @@
 package main
 
 import (
+	"fmt"
 	"go/types"
+	"os"
 )
 
 // identical reports whether two values are the same value (no solver).
@@ -384,8 +386,17 @@ func sameShape(a, b *State) bool {
 }
 
 // tryMerge merges b into a (returns new state) or reports failure.
+var mergeDebug = os.Getenv("VCHECK_MERGEDEBUG") != ""
+
+func mdbg(format string, args ...interface{}) {
+	if mergeDebug {
+		fmt.Fprintf(os.Stderr, "merge-fail: "+format+"\n", args...)
+	}
+}
+
 func (e *Exec) tryMerge(a, b *State) (*State, bool) {
 	if !sameShape(a, b) {
+		mdbg("shape differs at %s (nondet %d/%d ghost %d/%d)", e.where(a), len(a.nondet), len(b.nondet), len(a.ghost), len(b.ghost))
 		return nil, false
 	}
 	n := lcp(a.pc, b.pc)
@@ -456,13 +467,12 @@ func (e *Exec) mergeInto(a, b *State, c *Term, apply bool) bool {
 	for id, va := range a.heap {
 		vb, ok := b.heap[id]
 		if !ok {
-			if id >= minObj(a, b) {
-				return false
-			}
+			mdbg("heap o%d only on one side: %s", id, showValue(va))
 			return false
 		}
 		m, ok := mergeValue(c, va, vb)
 		if !ok {
+			mdbg("heap o%d: %s vs %s", id, showValue(va), showValue(vb))
 			return false
 		}
 		if apply {
@@ -471,6 +481,7 @@ func (e *Exec) mergeInto(a, b *State, c *Term, apply bool) bool {
 	}
 	for id := range b.heap {
 		if _, ok := a.heap[id]; !ok {
+			mdbg("heap o%d only on other side: %s", id, showValue(b.heap[id]))
 			return false
 		}
 	}
@@ -492,6 +503,7 @@ func (e *Exec) mergeInto(a, b *State, c *Term, apply bool) bool {
 				}
 				m, ok := mergeValue(c, la, lb)
 				if !ok {
+					mdbg("local %d of %s: %s vs %s", k, fa.fn.Name(), showValue(la), showValue(lb))
 					return false
 				}
 				if apply {
